@@ -37,7 +37,8 @@ structure DCfg where
   auto : Bool      -- callbacks are not gated: they end by themselves
   pm   : Nat       -- ungated callbacks panic iff first task % pm = 3
 
-def chunkSize (x : Task) : Nat := x % 8
+/-- the byte size the harness declares for task x: codes 0..5 are themselves, 6 = a NEGATIVE size (-2), 7 = a huge one (2^40) -/
+def chunkSize (x : Task) : Int := match x % 8 with | 6 => -2 | 7 => 1099511627776 | k => (k : Int)
 
 def classOf : Pc → String
   | .idle => "idle" | .aSend => "send" | .aConfirm => "confirm"
@@ -301,7 +302,7 @@ def holdsAfter (holds : Holds) : List String → Holds
   | _ => holds
 
 def bytesOf (kind : String) (l : List Nat) : Int :=
-  if kind = "chunk" then (((l.map chunkSize).sum : Nat) : Int) else (l.length : Int)
+  if kind = "chunk" then (l.map chunkSize).sum else (l.length : Int)
 
 def runLine (d : DCfg) (kind : String) (max : Int) (sec : Nat) (acc : Report × DState) (l : Line) : Report × DState := Id.run do
   let (r0, ds0) := acc
@@ -378,6 +379,11 @@ def runLine (d : DCfg) (kind : String) (max : Int) (sec : Nat) (acc : Report × 
         if after = max + 1 then r := r.addCover s!"add-lands-at-{kind}-threshold+1"
         if after > max + 1 ∧ max ≥ 1 then r := r.addCover s!"add-lands-above-{kind}-threshold+1"
         if kind = "chunk" ∧ chunkSize x = 0 then r := r.addCover "chunk-task-of-0-bytes"
+        if kind = "chunk" ∧ chunkSize x < 0 then r := r.addCover "chunk-task-of-negative-size"
+        if kind = "chunk" ∧ chunkSize x > 1000000 then r := r.addCover "chunk-task-of-huge-size"
+        if kind = "chunk" ∧ chunkSize x = 0 ∧ c0.isEmpty then r := r.addCover "chunk-task-of-0-bytes-into-empty-container"
+        if max ≤ 0 then r := r.addCover s!"add-with-{kind}-threshold<=0"
+        if max = 1 then r := r.addCover s!"add-with-{kind}-threshold=1"
       | none => pure ()
     | _, _ => pure ()
     ds := { ds with lastCont := if ws.contains "hold" ∨ ws.contains "alock" then none else some cont }
